@@ -4,7 +4,7 @@
    history the path is routed to; dg f is the file's current digest text in format f; `validate_record` is
    history._validate_new_hash_list.  The same `seal` / `validate_records` are what Model/Create.v calls for every
    file and what the extracted model executes against the real tool. *)
-From MHL Require Import Model.Seal Model.Commands Proofs.BaseFacts Proofs.SealFacts Proofs.TreeFacts Proofs.VerifyFacts Proofs.FlatFacts Proofs.InfoFacts Proofs.PackFacts Proofs.ShapeFacts.
+From MHL Require Import Model.Seal Model.Commands Proofs.BaseFacts Proofs.SealFacts Proofs.TreeFacts Proofs.VerifyFacts Proofs.FlatFacts Proofs.InfoFacts Proofs.PackFacts Proofs.ShapeFacts Proofs.ReloadFacts Proofs.NestedFacts.
 
 (* closed form of the record written for a file: the re-checked entries of recorded formats, then -- only if none of
    them failed -- the entries of the formats that are new for the path *)
@@ -112,7 +112,20 @@ Theorem C04_first_recorded_digest_is_original_end_to_end : forall Hb matches C c
   let r0 := create_folder Hb matches C cdig ser (Dir None kids) req0 nd0 false ip ifl in
   let r := run_creates Hb matches C cdig ser (fst r0) rs in
   exists old', fst r = Dir (Some old') kids /\
-    (forall p x, find (at_path p) (scan (loaded_gens C old')) = Some x -> is_original (snd x) = true) /\
+    (forall p x, find (PackFacts.at_path p) (scan (loaded_gens C old')) = Some x -> is_original (snd x) = true) /\
     (forall g rec e, In g (loaded_gens C old') -> In rec (g_records g) -> r_dir rec = true -> In e (r_entries rec) -> e_action e = None).
 Proof. exact seal_creates_shape. Qed.
 Print Assumptions C04_first_recorded_digest_is_original_end_to_end.
+
+(* the last sentence for ANY nesting of histories: from a state in which every recorded digest is current (`nstate`, see
+   Props/C03.v), every sequence of format choices (and -n or not) on the unaltered tree runs through with exit 0, whatever
+   the number and depth of nested histories and whichever formats each of them has recorded so far *)
+Theorem C04_nested_unaltered_tree_every_format_sequence_exits_0 : forall Hb matches C cdig ser rs h0 kids hs,
+  wf_tree C (Dir h0 kids) -> load C cdig (Dir h0 kids) = inl hs -> nstate Hb matches C hs (Dir h0 kids) -> Forall (fun x => fst x <> []) rs ->
+  let r := run_creates Hb matches C cdig ser (Dir h0 kids) rs in
+  Forall (fun o => o = Exit 0) (snd r) /\
+  exists hs', load C cdig (fst r) = inl hs' /\ Forall2 (ext C cdig ser) hs hs' /\
+    (rs <> [] -> verify_result Hb matches C cdig false (fst r) [] [] = Some (mkVR 0 [] [] []) /\
+                 verify_result Hb matches C cdig true (fst r) [] [] = Some (mkVR 0 [] [] [])).
+Proof. exact nested_sequences. Qed.
+Print Assumptions C04_nested_unaltered_tree_every_format_sequence_exits_0.
